@@ -98,7 +98,7 @@ META = {
                     "entries of the approximation table are excluded from the exactness claim, not verified"],
     "technique": "closure over verified primitives (call-site enumeration + callee resolution + exception table)",
 }
-MIN_INSTANCES = {"R1": 25, "R2": 7, "R3": 6, "R4": 1, "R5": 6, "R6": 9}
+MIN_INSTANCES = {"R1": 25, "R2": 7, "R3": 6, "R4": 1, "R5": 6, "R6": 9, "R7": 1}
 
 
 # ========================================================================================
@@ -852,7 +852,25 @@ def _check_main_term(ctx: Ctx, M: _Mod, qual: str, fn: ast.FunctionDef) -> None:
 # run
 # ========================================================================================
 
+def _r7_primitives_exact(ctx: Ctx) -> None:
+    """R7 (added by the coordinator): the closure argument of this property rests on the primitives being exact.
+    Re-run the C01 analysis of ad/functions.py and ad/forward_mode.py on the same tree and import its findings: a model
+    Jacobian assembled from a primitive with a wrong local derivative is not the derivative of the residual."""
+    from . import c01
+    sub = Ctx("C01", ctx.repo, "quick")
+    c01.run(sub)
+    bad = {f.key(): f for f in sub.findings}
+    n = 0
+    for o in sub.obligations:
+        n += 1
+    ctx.check("R7", not bad, c01.FUN, "<module>", None,
+              "a forward-mode primitive used by the models has an inexact local rule: " + "; ".join(sorted({f.short()[:200] for f in bad.values()}))[:900],
+              construct="C01 findings on the AD primitives: " + " | ".join(sorted({f.rule + ":" + f.qualname + ":" + f.construct[:60] for f in bad.values()}))[:600],
+              facts={"c01_obligations": n, "c01_findings": len(bad)})
+
+
 def run(ctx: Ctx) -> None:
+    _r7_primitives_exact(ctx)
     rels: list[str] = []
     for sub in SCOPE_QUICK + (SCOPE_THOROUGH if ctx.tier == "thorough" else []):
         rels += ctx.repo.all_py(sub)
